@@ -16,6 +16,7 @@ Reading guide
 import EPV.Lemmas.NodePath
 import EPV.Lemmas.NodePathEtree
 import EPV.Lemmas.NodePathRefs
+import EPV.Lemmas.NodePathText
 namespace EPV.C14
 open EPV.NodePath
 
@@ -138,6 +139,76 @@ theorem etree_paths_select_self (e : Node) (ip : List Nat) (steps : List Step)
     (h : (ip, steps) ∈ etreeIterPaths e) : evalSteps e steps = [⟨ip, .self⟩] := by
   have hp := etree_paths_agree e ip steps h
   exact path_selects_self_node e ip steps hp
+
+/-! ### the string level
+
+`renderAbs` / `renderFnPath` (Model) produce the text of `node.path` / `fn:path`, character by
+character; `parsePath` (Spec) is a recogniser of the output language of F&O 3.1 §14.6 written
+independently of the renderer.  `Step.ok` / `Node.namesOK`: names contain none of `/ [ ) { } *`
+(every NCName qualifies) and namespace URIs no `}` (XPath 3.1 BracedURILiteral). -/
+
+/-- Reading the generated text back gives the steps: absolute form. -/
+theorem parse_render_abs (steps : List Step) (hok : steps.all Step.ok = true) :
+    parsePath (renderAbs steps).toList = some (.abs, steps) := by
+  simp only [renderAbs, String.toList_ofList]; exact parsePath_renderAbs steps hok
+
+/-- Reading the generated text back gives the steps: `Q{…}root()` form of `fn:path`. -/
+theorem parse_render_fn (steps : List Step) (hok : steps.all Step.ok = true) :
+    parsePath (renderFnPath steps).toList = some (.fromRoot, steps) := by
+  simp only [renderFnPath, String.toList_ofList]; exact parsePath_renderFn steps hok
+
+/-- The rendering is injective: two step lists with the same text are equal. -/
+theorem render_injective (s₁ s₂ : List Step) (h₁ : s₁.all Step.ok = true) (h₂ : s₂.all Step.ok = true)
+    (h : renderAbs s₁ = renderAbs s₂) : s₁ = s₂ := by
+  have e₁ := parse_render_abs s₁ h₁
+  have e₂ := parse_render_abs s₂ h₂
+  rw [h, e₂] at e₁
+  simp only [Option.some.injEq, Prod.mk.injEq, true_and] at e₁
+  exact e₁.symm
+
+theorem render_fn_injective (s₁ s₂ : List Step) (h₁ : s₁.all Step.ok = true) (h₂ : s₂.all Step.ok = true)
+    (h : renderFnPath s₁ = renderFnPath s₂) : s₁ = s₂ := by
+  have e₁ := parse_render_fn s₁ h₁
+  have e₂ := parse_render_fn s₂ h₂
+  rw [h, e₂] at e₁
+  simp only [Option.some.injEq, Prod.mk.injEq, true_and] at e₁
+  exact e₁.symm
+
+/-- The steps generated for a tree whose names are NCName-like are `ok`. -/
+theorem path_steps_ok (top : Node) (r : Ref) (steps : List Step) (hn : top.namesOK = true)
+    (hp : pathOf top r = some steps) : steps.all Step.ok = true :=
+  pathOfWith_ok sameKind top r steps hn hp
+
+/-- STRING LEVEL of the headline: the *text* of `node.path`, read by the recogniser and evaluated
+per XPath 3.1 from the root, selects exactly the node. -/
+theorem path_text_selects_self (top : Node) (r : Ref) (steps : List Step) (hw : top.wf = true)
+    (hn : top.namesOK = true) (hp : pathOf top r = some steps) : evalText top (renderAbs steps) = [r] := by
+  simp only [evalText, parse_render_abs steps (path_steps_ok top r steps hn hp)]
+  exact path_selects_self top r steps hw hp
+
+/-- the same for the `root()` form that `fn:path` returns on a tree without document node -/
+theorem fn_path_text_selects_self (e : Node) (r : Ref) (steps : List Step) (hw : e.wf = true)
+    (hn : e.namesOK = true) (hp : pathOf e r = some steps) : evalText e (renderFnPath steps) = [r] := by
+  simp only [evalText, parse_render_fn steps (path_steps_ok e r steps hn hp)]
+  exact path_selects_self e r steps hw hp
+
+/-- STRING LEVEL of injectivity: two nodes of a tree whose `path` texts are equal are the same node. -/
+theorem path_text_injective (top : Node) (r₁ r₂ : Ref) (s₁ s₂ : List Step) (hw : top.wf = true)
+    (hn : top.namesOK = true) (h₁ : pathOf top r₁ = some s₁) (h₂ : pathOf top r₂ = some s₂)
+    (h : renderAbs s₁ = renderAbs s₂) : r₁ = r₂ := by
+  have e := render_injective s₁ s₂ (path_steps_ok top r₁ s₁ hn h₁) (path_steps_ok top r₂ s₂ hn h₂) h
+  subst e
+  exact path_injective top r₁ r₂ s₁ hw h₁ h₂
+
+/-- the hypotheses are satisfiable and the recogniser really reads the text (test on literals) -/
+example :
+    let t := docNode [.elem ⟨"urn:p", "r"⟩ [("xml", "x"), ("", "urn:p")] [(⟨"urn:q", "a"⟩, "1"), (⟨"", "b"⟩, "2")]
+      [.pi "x", .text, .pi "x"]]
+    t.namesOK = true ∧ t.wf = true ∧
+    parsePath ("/Q{urn:p}r[1]/processing-instruction(x)[12]".toList)
+      = some (.abs, [.child ⟨"urn:p", "r"⟩ 1, .pi "x" 12]) ∧
+    parsePath ("/Q{urn:p}r[1]/@Q{urn:q}a".toList) = some (.abs, [.child ⟨"urn:p", "r"⟩ 1, .attr ⟨"urn:q", "a"⟩]) ∧
+    parsePath ("/Q{urn:p}r[1]/text()[01]".toList) = none := by decide
 
 /-! ### the pinned tree (05acc20) — defects F14a / F14e, repaired by `fix:` commits of branch fix-c14
 
